@@ -580,9 +580,20 @@ class FileSystemSink(DataSink):
     def stix_dir(self):
         return self._stix_dir
 
-    def _check_path_and_write(self, stix_obj, encoding='utf-8', pretty=True):
-        """Write the given STIX object to a file in the STIX file directory.
+    def _prepare_write(self, stix_obj, encoding='utf-8', pretty=True):
+        """Work out the file for the given STIX object in the STIX file
+        directory, and its content.  Nothing is created yet.
+
+        Returns:
+            A (directory, file path, content) tuple.
         """
+        for name in ("type", "id"):
+            # (an unregistered custom object is not validated)
+            value = stix_obj.get(name)
+            if not isinstance(value, str) or value in ("", ".", "..") \
+                    or os.path.basename(value) != value:
+                raise ValueError("Can't store an object with '{}' {!r}".format(name, value))
+
         type_dir = os.path.join(self._stix_dir, stix_obj["type"])
 
         # All versioned objects should have a "modified" property.
@@ -613,6 +624,13 @@ class FileSystemSink(DataSink):
         fp_serialize(stix_obj, text, pretty=pretty, encoding=encoding, ensure_ascii=False)
         data = text.getvalue().encode(encoding)
 
+        return obj_dir, file_path, data
+
+    def _check_path_and_write(self, stix_obj, encoding='utf-8', pretty=True):
+        """Write the given STIX object to a file in the STIX file directory.
+        """
+        obj_dir, file_path, data = self._prepare_write(stix_obj, encoding, pretty)
+
         if not os.path.exists(obj_dir):
             os.makedirs(obj_dir)
 
@@ -637,37 +655,60 @@ class FileSystemSink(DataSink):
             the Bundle contained, but not the Bundle itself.
 
         """
+        # Parse and serialize everything first: if part of the content is
+        # refused, nothing of it must have been written.
+        writes = []
+        for stix_obj in self._parse_all(stix_data, version):
+            write = self._prepare_write(stix_obj, pretty=pretty)
+            if any(write[1] == other[1] for other in writes):
+                raise DataSourceError("Attempted to overwrite file (!) at: {}".format(write[1]))
+            writes.append(write)
+
+        for obj_dir, file_path, data in writes:
+            if not os.path.exists(obj_dir):
+                os.makedirs(obj_dir)
+
+            with io.open(file_path, mode='wb') as f:
+                f.write(data)
+
+    def _parse_all(self, stix_data, version):
+        """
+        The objects to write for the given content, as a list.  Recursive
+        function, breaks down STIX Bundles and lists.
+        """
+        stix_objs = []
+
         if isinstance(stix_data, (v20.Bundle, v21.Bundle)):
             # recursively add individual STIX objects
             for stix_obj in stix_data.get("objects", []):
-                self.add(stix_obj, version=version, pretty=pretty)
+                stix_objs.extend(self._parse_all(stix_obj, version))
 
         elif isinstance(stix_data, _STIXBase):
             # adding python STIX object
-            self._check_path_and_write(stix_data, pretty=pretty)
+            stix_objs.append(stix_data)
 
         elif isinstance(stix_data, str) and version is not None:
             # the same for a bundle given as JSON text
-            self.add(_get_dict(stix_data), version=version, pretty=pretty)
+            stix_objs.extend(self._parse_all(_get_dict(stix_data), version))
 
         elif isinstance(stix_data, dict) and stix_data.get("type") == "bundle":
             # Like the memory sink: each object of a bundle dictionary is added
             # on its own, so that a named version reaches it.
             for stix_obj in stix_data.get("objects", []):
-                self.add(stix_obj, version=version, pretty=pretty)
+                stix_objs.extend(self._parse_all(stix_obj, version))
 
         elif isinstance(stix_data, (str, dict)):
             parsed_data = parse(stix_data, allow_custom=self.allow_custom, version=version)
             if isinstance(parsed_data, _STIXBase):
-                self.add(parsed_data, version=version, pretty=pretty)
+                stix_objs.extend(self._parse_all(parsed_data, version))
             else:
                 # custom unregistered object type
-                self._check_path_and_write(parsed_data, pretty=pretty)
+                stix_objs.append(parsed_data)
 
         elif isinstance(stix_data, list):
             # recursively add individual STIX objects
             for stix_obj in stix_data:
-                self.add(stix_obj, version=version, pretty=pretty)
+                stix_objs.extend(self._parse_all(stix_obj, version))
 
         else:
             raise TypeError(
@@ -675,6 +716,8 @@ class FileSystemSink(DataSink):
                 "JSON formatted STIX (or list of), "
                 "or a JSON formatted STIX bundle",
             )
+
+        return stix_objs
 
 
 class FileSystemSource(DataSource):
